@@ -11,6 +11,12 @@ type Tape struct {
 	pos    int
 	forced bool
 	state  uint64
+	// Variant selects among workload variants of a harness without consuming
+	// tape positions: derived from the run seed in search mode, stored in the
+	// replay file, 0 when a replay file predates it (so that variant 0 must
+	// remain the harness's original workload and old replays keep their
+	// meaning). It is fixed while a tape is shrunk.
+	Variant uint64
 }
 
 // NewTape returns a search-mode tape seeded with seed.
